@@ -30,6 +30,7 @@ Clauses == <<
   <<"NoForeignIds", \A i \in DOMAIN Read : Read[i][1] # "other">>,
   <<"EventsOnceInOrder", /\ Len(SrvSeq) = End.expSrv
                          /\ \A i \in DOMAIN SrvSeq : SrvSeq[i][3] = i>>,
+  <<"ContentIntact", \A i \in DOMAIN Read : Read[i][5]>>,
   <<"CleanExit", End.tasks <= 0 /\ End.clients /\ (HasEnter /\ E.r = "returned" => End.streams)>>
 >>
 
